@@ -54,7 +54,7 @@ def main(tier):
     names = sorted(files)
 
     def run(args, cwd=root, inp=None):
-        p = subprocess.run([mlar] + args, cwd=cwd, stdout=subprocess.PIPE, stderr=subprocess.PIPE, timeout=600, input=inp)
+        p = subprocess.run([mlar] + args, cwd=cwd, stdout=subprocess.PIPE, stderr=subprocess.PIPE, timeout=600, input=inp, preexec_fn=limit_as)
         return p.returncode, p.stdout, p.stderr.decode(errors="replace")[-300:]
 
     keys = {}
